@@ -178,6 +178,35 @@ func (x *Run) model(fr *Frame, st *State, fn *ssa.Function, args []Val, site ssa
 	if strings.HasPrefix(name, "(*sync/atomic.") {
 		return x.modelAtomic(fr, st, fn, args, site), true
 	}
+	if strings.HasPrefix(name, "sync/atomic.") && len(args) >= 1 && args[0].Addr != nil {
+		// function-style atomics on a plain variable / field: sequentially
+		// consistent load / store of that location (A-SEQ)
+		op := fn.Name()
+		a := x.addrOf(args[0])
+		rt := fn.Signature.Results()
+		switch {
+		case strings.HasPrefix(op, "Load"):
+			return single(st, x.load(st, a, rt.At(0).Type())), true
+		case strings.HasPrefix(op, "Store") && len(args) == 2:
+			x.storeAddr(st, a, args[1], site)
+			return single(st, Val{T: "unit", S: SUnit}), true
+		case strings.HasPrefix(op, "Add") && len(args) == 2 && args[1].S == SInt:
+			cur := x.load(st, a, rt.At(0).Type())
+			nv := Val{T: fmt.Sprintf("(+ %s %s)", cur.T, args[1].T), S: SInt, Ty: rt.At(0).Type()}
+			x.storeAddr(st, a, nv, site)
+			return single(st, nv), true
+		case strings.HasPrefix(op, "Swap") && len(args) == 2:
+			cur := x.load(st, a, rt.At(0).Type())
+			x.storeAddr(st, a, args[1], site)
+			return single(st, cur), true
+		case strings.HasPrefix(op, "CompareAndSwap") && len(args) == 3:
+			cur := x.load(st, a, args[1].Ty)
+			okc := eq(cur.T, args[1].T)
+			nv := Val{T: ite(okc, args[2].T, cur.T), S: cur.S, Ty: cur.Ty}
+			x.storeAddr(st, a, nv, site)
+			return single(st, Val{T: okc, S: SBool, Ty: types.Typ[types.Bool]}), true
+		}
+	}
 	return nil, false
 }
 
